@@ -8,6 +8,7 @@ Copyright (c) 2008, 2009 Centre national de la recherche scientifique (CNRS)
 #include "FastRational.h"
 
 #include <sstream>
+#include <common/VerifHooks.h>
 #include <algorithm>
 
 namespace opensmt {
@@ -15,8 +16,10 @@ namespace opensmt {
 mpq_ptr FastRational::mpqPool::alloc()
 {
     mpq_ptr r;
+    OSMT_VERIF_SCHED("pool.alloc");
     if (!pool.empty()) {
         r = pool.top();
+        OSMT_VERIF_SCHED("pool.alloc.mid");
         pool.pop();
     } else {
         r = store.emplace().get_mpq_t();
@@ -26,6 +29,7 @@ mpq_ptr FastRational::mpqPool::alloc()
 
 void FastRational::mpqPool::release(mpq_ptr ptr)
 {
+    OSMT_VERIF_SCHED("pool.release");
     pool.push(ptr);
 }
 
